@@ -65,8 +65,51 @@ impl AnySpec {
             AnySpec::Sys(s) => s.rule().is_valid().is_ok(),
         }
     }
-    /// rule equality of the family (ignores the id)
+    /// Rule equality of the family, restated on the specifications (NOT the library's `==`, so that a
+    /// broken equality in the library is visible): two rules are the same rule iff every field that
+    /// takes part in enforcing them is equal; the id never matters. Fields that have no effect for the
+    /// rule's strategy are ignored as documented on the rule types (breaker: max_allowed_rt only for
+    /// the slow-request strategy; hotspot: burst only for Reject, max queueing time only for Throttling).
     pub fn same_rule(&self, o: &AnySpec) -> bool {
+        match (self, o) {
+            (AnySpec::Flow(a), AnySpec::Flow(b)) => {
+                let mut x = a.clone();
+                x.id = b.id.clone();
+                x == *b
+            }
+            (AnySpec::Breaker(a), AnySpec::Breaker(b)) => {
+                a.res == b.res
+                    && a.strategy == b.strategy
+                    && a.retry_ms == b.retry_ms
+                    && a.min_req == b.min_req
+                    && a.interval_ms == b.interval_ms
+                    && a.buckets == b.buckets
+                    && a.threshold == b.threshold
+                    && (a.strategy != 0 || a.max_rt == b.max_rt)
+            }
+            (AnySpec::Hot(a), AnySpec::Hot(b)) => {
+                let mut sa = a.specific.clone();
+                let mut sb = b.specific.clone();
+                sa.sort();
+                sb.sort();
+                a.res == b.res
+                    && a.metric == b.metric
+                    && a.ctrl == b.ctrl
+                    && a.capacity == b.capacity
+                    && a.index == b.index
+                    && a.key == b.key
+                    && a.threshold == b.threshold
+                    && a.duration_s == b.duration_s
+                    && sa == sb
+                    && ((a.ctrl == 0 && a.burst == b.burst) || (a.ctrl == 1 && a.max_queue_ms == b.max_queue_ms))
+            }
+            (AnySpec::Iso(a), AnySpec::Iso(b)) => a.res == b.res && a.threshold == b.threshold,
+            (AnySpec::Sys(a), AnySpec::Sys(b)) => a.metric == b.metric && a.threshold == b.threshold && a.bbr == b.bbr,
+            _ => false,
+        }
+    }
+    /// the library's own equality (used where the harness must predict what the library considers equal)
+    pub fn lib_eq(&self, o: &AnySpec) -> bool {
         match (self, o) {
             (AnySpec::Flow(a), AnySpec::Flow(b)) => *a.rule() == *b.rule(),
             (AnySpec::Breaker(a), AnySpec::Breaker(b)) => *a.rule() == *b.rule(),
